@@ -641,6 +641,10 @@ class Interp:
 
     def contains(self, container, item, node=None):
         item = simplify_str(_unlin(item))
+        if isinstance(container, AObj) and container.cls is not None:
+            if self.repo.find_method(container.cls, "__contains__") is not None:
+                return self.truth(self.call_method(container, "__contains__", [item], {}, node), node)
+            return self.contains(self.iterate(container, node), item, node)
         if isinstance(container, dict):
             container = list(container.keys())
         if isinstance(container, (list, tuple, set, frozenset, range)):
@@ -1252,6 +1256,8 @@ class Interp:
             v = args[0]
             if hasattr(v, "a_len"):
                 return v.a_len(self)
+            if isinstance(v, AObj) and v.cls is not None and self.repo.find_method(v.cls, "__len__") is not None:
+                return self.call_method(v, "__len__", [], {}, node)
             if isinstance(v, (list, tuple, dict, str)):
                 return len(v)
             if isinstance(v, Ch):
@@ -1296,6 +1302,14 @@ class Interp:
             if isinstance(v, (set, frozenset)):
                 return sorted(v, key=repr)
             return Opaque(name, args)
+        if name in ("any", "all") and args and isinstance(args[0], (list, tuple)):
+            for x in args[0]:
+                t = self.truth(x, node)
+                if name == "any" and t:
+                    return True
+                if name == "all" and not t:
+                    return False
+            return name == "all"
         if name == "enumerate" and isinstance(args[0], (list, tuple)):
             start = args[1] if len(args) > 1 and isinstance(args[1], int) else kwargs.get("start", 0)
             return [(i + start, x) for i, x in enumerate(args[0])]
@@ -1450,6 +1464,19 @@ class Interp:
 
     def iterate(self, it, node=None):
         it = _unlin(it)
+        if isinstance(it, AObj) and it.cls is not None:
+            if self.repo.find_method(it.cls, "__iter__") is not None:
+                return self.iterate(self.call_method(it, "__iter__", [], {}, node), node)
+            if self.repo.find_method(it.cls, "__getitem__") is not None:
+                out = []
+                for i in range(self.max_iter):
+                    try:
+                        out.append(self.call_method(it, "__getitem__", [i], {}, node))
+                    except RaiseEx as r:
+                        if r.exc == "IndexError":
+                            return out
+                        raise
+                raise CannotDecide("sequence protocol iteration does not end")
         if isinstance(it, AIter) and isinstance(it.items, list):
             return list(it.items)
         if isinstance(it, (set, frozenset)):
